@@ -51,19 +51,32 @@ CHECKS = {
             "40/120 x rounds <= 7, exhaustive permutations of multisets of <= 8 games, random, dirty destinations, real GameEncoding objects.",
             TB + "numba floor-division semantics, moptipy Permutations (only non-emptiness/sortedness used).",
             "Lean 4 proof (refinement of the loop to an explicit list, inductive EarliestSlot relation + uniqueness) + correspondence", "6/C15"),
+    "C16": ("proof",
+            "Part A (translator): the njit controller and system kernels are re-translated from the current source to Lean on every run; 31 "
+            "theorems show the generated definitions equal the documented formulas over any linear ordered field: linear/quadratic/cubic are "
+            "the complete polynomials with one parameter per monomial (ring identity + exponent-table bijection + declared param_dims), "
+            "partially linear = law of the first nearest anchor, peaks/predefined/Stuart-Landau/Lorenz/oscillators = published formulas, all "
+            "literal indices in range, only out[] is written. Part B: compiler correctness of the ANN code generator for ALL architectures "
+            "(annGen_correct, parameter count, each parameter once, indices in range), tied to make_ann by byte-identical generated text; "
+            "min-ANN search: interval/argmin invariant over exact ordered fields (partial: fuel, no float rounding).",
+            TB + "the translator harness/translate/py2lean.py and its grammar; float rounding/fastmath outside (tied to compiled kernels exactly on "
+            "binary64-exact inputs and via source-over-Fractions, plus a 1e-9 float test); min-ANN float termination is a test.",
+            "translator (Python AST -> Lean, regenerated every run) + Lean 4 proof (ring/linarith/decide; compiler-correctness induction) + "
+            "exact-arithmetic correspondence", "6/C16", ["Props.C16Ann", "drv_c16ann"]),
 }
 NOT_YET = "check not built yet (work in progress; see DESIGN.md section 6)"
 
 
 def main() -> None:
     props = [json.loads(l)["id"] for l in (ROOT / "properties.jsonl").read_text().splitlines() if l.strip()]
-    checks, na = [], []
+    checks, na, extra_targets = [], [], []
     for p in props:
         c = CHECKS.get(p)
         if c is None or isinstance(c, str):
             na.append({"property_id": p, "reason": c or NOT_YET})
             continue
-        cat, text, note, tech, ref = c
+        cat, text, note, tech, ref = c[:5]
+        extra_targets.extend(c[5] if len(c) > 5 else [])
         checks.append({
             "property_id": p,
             "quick_cmd": f"./check {p} --tier quick",
@@ -78,7 +91,7 @@ def main() -> None:
     m = {
         "version": 1,
         "setup_cmd": "cd lean && lake build " + " ".join(
-            f"Props.{c['property_id']} drv_{c['property_id'].lower()}" for c in checks),
+            [f"Props.{c['property_id']} drv_{c['property_id'].lower()}" for c in checks] + extra_targets),
         "hooks": {"guard": "MOPTIPYAPPS_VERIF",
                   "enable": "no hooks are installed: checks drive the public API and the module-level kernels of /repo "
                             "from outside (numba env vars NUMBA_CACHE_DIR/NUMBA_BOUNDSCHECK only)",
